@@ -79,7 +79,10 @@ def run(ctx):
             except sym.Stop as e:
                 problems.append(f"{name}: path {i}: {e}")
                 continue
-            queries.append(smt.Query(f"{name}_path{i}", list(p.cond) + meta.get("pre", []) + [z3.Not(formula)], meta=meta))
+            m2 = dict(meta)
+            if "y" in meta:
+                m2["model_constraints"] = [models_ibig.IMUL(meta["x"], meta["y"]) == meta["x"] * meta["y"]]
+            queries.append(smt.Query(f"{name}_path{i}", list(p.cond) + meta.get("pre", []) + [z3.Not(formula)], meta=m2))
             n += 1
         if n == 0:
             problems.append(f"{name}: no returning path")
